@@ -15,5 +15,7 @@ theorem body_detectSequence : Tea.Gen.fact_body_detectSequence = Tea.Doc.fact_bo
 theorem body_detectBracketedPaste : Tea.Gen.fact_body_detectBracketedPaste = Tea.Doc.fact_body_detectBracketedPaste := rfl
 theorem body_detectReportFocus : Tea.Gen.fact_body_detectReportFocus = Tea.Doc.fact_body_detectReportFocus := rfl
 theorem body_isIncompleteEvent : Tea.Gen.fact_body_isIncompleteEvent = Tea.Doc.fact_body_isIncompleteEvent := rfl
+theorem body_newInputReader : Tea.Gen.fact_body_newInputReader = Tea.Doc.fact_body_newInputReader := rfl
+theorem body_readInputs : Tea.Gen.fact_body_readInputs = Tea.Doc.fact_body_readInputs := rfl
 
 end Tea.Props.Bridge.C15
